@@ -664,9 +664,12 @@ func c14(c *core.Ctx, r *core.Report) {
 	// what the close table saw the closing routine read
 	viaTable := false
 	if rl != nil && tableMode {
-		if _, isP := core.Norm(rl.Slice).(*ssa.Parameter); isP {
-			viaTable = true
+		// (a parameter, a copy of the field: anything but a plain load of a field)
+		isFieldLoad := false
+		if u, ok := core.Norm(rl.Slice).(*ssa.UnOp); ok && u.Op == token.MUL {
+			_, isFieldLoad = u.X.(*ssa.FieldAddr)
 		}
+		viaTable = !isFieldLoad
 	}
 	if rl != nil && (isParam || perIter != nil) && !viaTable {
 		idx := -1
